@@ -729,6 +729,15 @@ def burst_case(ctx, case):
         return
     # the recovered sequence is the packets the listener was handed: a
     # caller that queues them and looks later must find the same sequence
+    # a packet whose last field takes 'all remaining bytes' got exactly the
+    # bytes of its own frame (nothing of the compressed form or of a
+    # neighbour left behind them)
+    for p in kept:
+        if type(p).__name__ == 'PluginMessagePacket' and \
+                p.id in hand_ids and bytes(getattr(p, 'data', b'')) != b'':
+            ctx.fail('burst', 'R1-foreign-bytes-in-packet', case,
+                     bytes(p.data)[:24].hex(), 'empty data')
+            return
     later = [p.id for p in kept]
     if later != seen:
         k = next(j for j, (a, b) in enumerate(zip(later, seen)) if a != b)
